@@ -143,7 +143,7 @@ def closed_form_search(ctx, nmax):
     from numdifftools.limits import CStepGenerator as _CS
     for path in ('radial', 'spiral'):
         for ratio in (2.0, 3.0, 4.0, 8.0, 16.0, 1.6):
-            for dtheta in ((np.pi / 8, np.pi / 4, 0.1) if path == 'spiral' else (np.pi / 8,)):
+            for dtheta in ((np.pi / 8, np.pi / 4, 0.1, -np.pi / 8, -0.3) if path == 'spiral' else (np.pi / 8, -np.pi / 8)):
                 for extra in ({}, {'num_steps': 7}, {'offset': 2}):
                     kw = dict(base_step=0.125, step_ratio=ratio, step_nom=1.0, use_exact_steps=False, path=path, dtheta=dtheta, **extra)
                     try:
